@@ -1,4 +1,5 @@
 import ElfiVerif.Proofs.Mcmc
+import ElfiVerif.Proofs.McmcDB
 
 /-!
 # C09 — MCMC kernels implement their algorithm and never leave the target's support
@@ -78,5 +79,30 @@ theorem nuts_transition_support (N : NTarget σ S U) (dflt : U) (sl : S) (maxDep
 theorem tree_nOk_le (N : NTarget σ S U) (dflt : U) (sl : S) (fwd : Bool) (d : Nat) (pt : σ) (us : List U) :
     (buildTree N dflt sl fwd d pt us).1.nOk ≤ 2 ^ d :=
   tree_nOk_le' N dflt sl fwd d pt us
+
+/-! ### the algorithm the code implements is the Metropolis algorithm (reals; algorithm level)
+
+`realTarget` instantiates the model's comparison `np.exp(cur - prev) < u` over ℝ.  The theorems say that the
+accept test of `metroStep` accepts with the Metropolis probability `min(1, π(x')/π(x))` for a uniform on `[0,1)`,
+and that a kernel with this acceptance and a symmetric proposal is reversible w.r.t. `π = exp(target)`.
+(Statements about real numbers and Lebesgue measure: what floating point and the PRNG do is outside.) -/
+
+/-- one model step over the reals: the proposal is taken exactly when `u ≤ exp(target(x') − target(x))` -/
+theorem real_step_accepts {α ζ : Type} (prop : α → ζ → α) (lt : α → ℝ) (x : α) (z : ζ) (u : ℝ) :
+    metroStep (realTarget prop lt) (x, lt x) (z, u) =
+      if u ≤ Real.exp (lt (prop x z) - lt x) then (prop x z, lt (prop x z)) else (x, lt x) :=
+  real_step_accepts' prop lt x z u
+
+/-- **the accepting uniforms have Lebesgue measure `min(1, exp(cur − prev))`**: the Metropolis acceptance
+probability -/
+theorem accept_prob (lc lp : ℝ) :
+    MeasureTheory.volume {u : ℝ | 0 ≤ u ∧ u < 1 ∧ u ≤ Real.exp (lc - lp)} =
+      ENNReal.ofReal (min 1 (Real.exp (lc - lp))) :=
+  accept_prob' lc lp
+
+/-- **detailed balance**: with a symmetric proposal density the flow `x → y` equals the flow `y → x` -/
+theorem detailed_balance (lx ly q_xy q_yx : ℝ) (hq : q_xy = q_yx) :
+    Real.exp lx * q_xy * min 1 (Real.exp (ly - lx)) = Real.exp ly * q_yx * min 1 (Real.exp (lx - ly)) :=
+  detailed_balance' lx ly q_xy q_yx hq
 
 end ElfiVerif.Mcmc
